@@ -73,4 +73,95 @@ inductive Covers (languages : List Line) : Nat → List Line → List Tok → Pr
       comments ++ code = number (i + 1) body →
       Covers languages i (opener :: body) [.test language (cfgLines i config) comments code]
 
+/-! ## well-formed documents (the statement of `C06_wellformed`) -/
+
+/-- a scrut block as it is written: fence line, comment lines, `$ cmd`, `> more` lines,
+expectation lines, optionally an exit code line `[n]`, closing fence (the backticks of the opening
+line) -/
+structure Block where
+  opener : Line
+  /-- what the fence recogniser returns for `opener` -/
+  bt : Line
+  language : Line
+  config : Line
+  comments : List Line
+  cmd : Line
+  more : List Line
+  exps : List Line
+  /-- the exit code line and the number it denotes -/
+  exit : Option (Line × Nat)
+
+def Block.cmdLine (b : Block) : Line := '$' :: ' ' :: b.cmd
+def contLine (x : Line) : Line := '>' :: ' ' :: x
+def Block.exitLines (b : Block) : List Line :=
+  match b.exit with
+  | some (x, _) => [x]
+  | none => []
+/-- the lines after the comments -/
+def Block.code (b : Block) : List Line := b.cmdLine :: (b.more.map contLine ++ (b.exps ++ b.exitLines))
+def Block.body (b : Block) : List Line := b.comments ++ b.code
+def Block.lines (b : Block) : List Line := b.opener :: (b.body ++ [b.bt])
+
+inductive Item where
+  /-- any line that is neither a fence start nor `---` (blank, text, heading, …) -/
+  | prose (l : Line)
+  | block (b : Block)
+
+def render : List Item → List Line
+  | [] => []
+  | .prose l :: r => l :: render r
+  | .block b :: r => b.lines ++ render r
+
+/-- what the renderer needs -/
+def Block.WF (env : Env) (b : Block) : Prop :=
+  extractCodeBlockStart b.opener = .ok (some (b.bt, b.language, b.config)) ∧
+  env.languages.contains b.language = true ∧
+  (match stripBraces b.config with
+    | some c => env.testCfgOk c = true
+    | none => True) ∧
+  -- no line of the block closes it early
+  (∀ x ∈ b.body, startsWith x b.bt = false) ∧
+  (∀ c ∈ b.comments, isComment c = true) ∧
+  -- expectation lines: accepted by the expectation grammar, not an exit code, not `> …`
+  (∀ e ∈ b.exps, env.expOk e = true ∧ extractExitCode e = none ∧ stripPrefix ['>', ' '] e = none) ∧
+  (match b.exit with
+    | some (x, n) => extractExitCode x = some n
+    | none => True)
+
+def Item.WF (env : Env) : Item → Prop
+  | .prose l => extractCodeBlockStart l = .ok none ∧ l ≠ frontMatterFence
+  | .block b => b.WF env
+
+/-- The tests that are written in the document.  `li` = index of the first line of the items,
+`title` = the title collected so far and not yet used by a test, `tp` = the run of title lines
+that directly precedes (headings and paragraphs accumulate; any other line ends the run; a test
+consumes the title). -/
+def expectedTests (env : Env) : List Item → Nat → Option Line → List Line → List (TestCase Cfg)
+  | [], _, _, _ => []
+  | .prose l :: r, li, title, tp =>
+    match extractTitle env.isLetter l with
+    | some x => expectedTests env r (li + 1) (some (joinNl (tp ++ [x]))) (tp ++ [x])
+    | none => expectedTests env r (li + 1) title []
+  | .block b :: r, li, title, _ =>
+    { title := title.getD []
+      command := b.cmd :: b.more
+      exitCode := b.exit.map (·.2)
+      expectations := b.exps
+      -- 1-based line of the `$` line
+      lineNumber := li + 1 + b.comments.length + 1
+      config := some (stripBraces b.config) }
+      :: expectedTests env r (li + b.lines.length) none []
+
+/-- what a test says apart from its position and title: command lines, expectation texts, exit
+code, inline configuration -/
+abbrev Core := List Line × List Line × Option Nat × Option Cfg
+
+def TestCase.core (t : TestCase Cfg) : Core := (t.command, t.expectations, t.exitCode, t.config)
+
+/-- the blocks of a document, in order, as written -/
+def writtenCores : List Item → List Core
+  | [] => []
+  | .prose _ :: r => writtenCores r
+  | .block b :: r => (b.cmd :: b.more, b.exps, b.exit.map (·.2), some (stripBraces b.config)) :: writtenCores r
+
 end Scrut.Markdown
